@@ -2,7 +2,8 @@
 
     Only statements, each closed by [exact] of a lemma of [Service/Proofs*.v], with
     [Print Assumptions] beneath. *)
-From Irismod Require Import Service.Model Service.Proofs Service.ProofsHist.
+From Irismod Require Import Service.Model Service.Proofs Service.ProofsHist Service.ProofsEscrow
+  Service.ProofsSched Service.ProofsBatch Service.ProofsLiab Service.ProofsTally.
 
 (** Over EVERY history (any list of steps: messages of any kind and content, block ends,
     rate changes, transfers, module calls) from any initial height, time and ledger: the
@@ -17,6 +18,26 @@ Theorem request_single_outcome :
     /\ (forall rid q, In rid (map fst (g_out s)) -> get rid (reqs s) = Some q -> q_active q = false).
 Proof. exact single_outcome_lemma. Qed.
 Print Assumptions request_single_outcome.
+
+(** Over EVERY history in which context ids are fresh ([fresh_history]: no context id is issued
+    while a context with that id is still stored): (1) every active request belongs to the
+    RUNNING, CURRENT batch of a context that is still stored — so requests of a completed batch,
+    of an earlier batch, or of a removed (one-shot, killed, exhausted) context are never active
+    and can never be answered; (2) a running batch never has more active requests than
+    (requests issued - responses received), and its expiry is registered; (3) a new batch is only
+    ever queued for a context whose previous batch is closed, and at the height its marker says.
+    [nact id m] = number of active requests of context [id]. *)
+Theorem active_requests_belong_to_the_running_batch :
+  forall c steps h0 t0 l0,
+    fresh_history c (init h0 t0 l0) steps ->
+    let s := run c (init h0 t0 l0) steps in
+    (forall rid q, get rid (reqs s) = Some q -> q_active q = true ->
+       exists x, get (rid_ctx rid) (ctxs s) = Some x /\ x_brun x = true /\ rid_b rid = x_batch x)
+    /\ (forall id x, get id (ctxs s) = Some x -> x_brun x = true ->
+          nact id (reqs s) <= x_breq x - x_bresp x /\ has id (expmark s) = true)
+    /\ (forall h id x, In (h, id) (newq s) -> get id (ctxs s) = Some x -> x_brun x = false /\ get id (newmark s) = Some h).
+Proof. exact active_requests_lemma. Qed.
+Print Assumptions active_requests_belong_to_the_running_batch.
 
 (** A response succeeds only for a stored, still active request and only from the provider it
     is addressed to; afterwards the request is inactive and carries the response. *)
@@ -136,3 +157,7 @@ Example c08_schedule_nonvacuous :
   /\ exec_step ex_cfg (run ex_cfg (init 1 1000 ex_l0) (firstn 5 ex_hist2)) (Tx 15 (MPause (14, 0) 6)) = Rejj
   /\ (exists s', exec_step ex_cfg (run ex_cfg (init 1 1000 ex_l0) (firstn 5 ex_hist2)) (Tx 15 (MPause (14, 0) 5)) = Okk s').
 Proof. vm_compute. repeat split; try reflexivity. eexists. reflexivity. Qed.
+
+Example c08_fresh_history_satisfiable :
+  fresh_history ex_cfg (init 1 1000 ex_l0) ex_hist /\ fresh_history ex_cfg (init 1 1000 ex_l0) ex_hist2.
+Proof. split; apply fresh_historyb_ok; vm_compute; reflexivity. Qed.
